@@ -107,6 +107,7 @@ pub fn add_counters(rep: &mut Rep, w: &World) {
     rep.add("terminations_checked", c.term_checked as i64);
     rep.add("h3_snapshots", c.h3_snapshots as i64);
     rep.add("stream_handovers", w.sim.stream_handovers as i64);
+    rep.add("task_handovers", w.sim.task_handovers as i64);
     rep.add("spurious_polls", w.sim.spurious_polls as i64);
     rep.add("sweeps", w.sim.sweeps as i64);
     rep.max("max_outstanding_reached", w.max_inflight_seen as i64);
